@@ -8,6 +8,9 @@
 //   - p is a conjunction of comparisons of one column with a constant; every
 //     comparison on a nullable column is rendered guarded (`c IS NOT NULL AND c < 5`)
 //     so that three-valued logic never decides anything; plus `c IS NULL`;
+//   - secondary indexes over one to three columns, non-unique (no effect on results: a query
+//     or UPDATE/DELETE may name one with USE INDEX ON, rows are then compared in key order)
+//     and UNIQUE over NOT NULL columns (a second row with the same values is a duplicate);
 //   - a bounded DDL subset inside transactions: ALTER TABLE t DROP CONSTRAINT name (named
 //     CHECK constraints of the shape `col op const` on a NOT NULL column), ALTER TABLE t
 //     ADD COLUMN x INTEGER (the new column is never written, only probed with
@@ -60,7 +63,8 @@ type Schema struct {
 	Name    string
 	AutoInc bool
 	Cols    []Col
-	Index   []string       // columns with a secondary (non-unique) index; irrelevant to the model
+	Index   []string       // secondary non-unique indexes, each "col" or "col1, col2[, col3]"; irrelevant to the model
+	Unique  []string       // secondary UNIQUE indexes in the same notation, over NOT NULL columns; enforced
 	Checks  map[string]Cmp // named CHECK constraints the table is created with
 }
 
@@ -308,7 +312,7 @@ type Stmt struct {
 	Rows   [][]Val  // Insert/Upsert
 	Set    []Assign // Update
 	Where  Pred
-	Hint   string // Select/Count: USE INDEX ON (Hint); the model ignores it, the result is compared as a set in key order
+	Hint   string // Select/Count/Update/Delete: USE INDEX ON (Hint); the model ignores it, rows are compared in key order
 	Name   string // savepoint name
 }
 
@@ -347,6 +351,9 @@ func (s *Stmt) SQL(sch *Schema) string {
 		for _, ix := range s.Schema.Index {
 			out += fmt.Sprintf("; CREATE INDEX ON %s(%s)", s.Schema.Name, ix)
 		}
+		for _, ix := range s.Schema.Unique {
+			out += fmt.Sprintf("; CREATE UNIQUE INDEX ON %s(%s)", s.Schema.Name, ix)
+		}
 		return out
 	case Insert, Upsert:
 		rows := make([]string, len(s.Rows))
@@ -363,9 +370,9 @@ func (s *Stmt) SQL(sch *Schema) string {
 		for i, a := range s.Set {
 			sets[i] = a.Col + " = " + lit(a.Val)
 		}
-		return fmt.Sprintf("UPDATE %s SET %s%s", s.Table, strings.Join(sets, ", "), s.Where.sql(sch))
+		return fmt.Sprintf("UPDATE %s SET %s%s%s", s.Table, strings.Join(sets, ", "), s.Where.sql(sch), s.dmlHint())
 	case Delete:
-		return fmt.Sprintf("DELETE FROM %s%s", s.Table, s.Where.sql(sch))
+		return fmt.Sprintf("DELETE FROM %s%s%s", s.Table, s.Where.sql(sch), s.dmlHint())
 	case Select, Count:
 		from := s.Table
 		if s.Hint != "" {
@@ -393,6 +400,13 @@ func (s *Stmt) SQL(sch *Schema) string {
 		return "RELEASE SAVEPOINT " + s.Name
 	}
 	panic("sqlmodel: kind " + s.Kind)
+}
+
+func (s *Stmt) dmlHint() string {
+	if s.Hint == "" {
+		return ""
+	}
+	return " USE INDEX ON (" + s.Hint + ")"
 }
 
 // Error classes of a failed statement.
@@ -500,6 +514,9 @@ func (tx *Tx) Exec(s *Stmt) Result {
 			if _, exists := t.Rows[pk]; exists && s.Kind == Insert {
 				return tx.fail(ErrDup)
 			}
+			if t.uniqueTaken(row) {
+				return tx.fail(ErrDup)
+			}
 
 			t.Rows[pk] = row
 			if pk > t.MaxPK {
@@ -516,6 +533,9 @@ func (tx *Tx) Exec(s *Stmt) Result {
 				}
 				if !t.checksHold(r) {
 					return tx.fail(ErrCheck)
+				}
+				if t.uniqueTaken(r) {
+					return tx.fail(ErrDup)
 				}
 				tx.Updated++
 			}
@@ -602,6 +622,28 @@ func (tx *Tx) Exec(s *Stmt) Result {
 		panic("sqlmodel: kind " + s.Kind)
 	}
 	return Result{Rows: rows, Updated: tx.Updated, First: cpMap(tx.First), Last: cpMap(tx.Last)}
+}
+
+// uniqueTaken: another row (another key) already holds the values of row in the columns of
+// one of the UNIQUE indexes (those columns are NOT NULL).
+func (t *Table) uniqueTaken(row Row) bool {
+	for _, ix := range t.Schema.Unique {
+		cols := strings.Split(ix, ", ")
+		for pk, other := range t.Rows {
+			if pk == row[0].(int64) {
+				continue
+			}
+			same := true
+			for _, c := range cols {
+				i := t.Schema.ColIdx(c)
+				same = same && other[i] == row[i]
+			}
+			if same {
+				return true
+			}
+		}
+	}
+	return false
 }
 
 // checksHold evaluates the CHECK constraints in force on a row (constrained columns are NOT NULL).
